@@ -34,7 +34,7 @@ def parse_range(t):
 
 def parse_struct(text):
     """returns dict(n, default_present, debug, fields=[dict(name, ranges, arr, kind, w, readable, writable)])"""
-    head = re.search(r'#\[bitfield\(\s*u(\d+)\s*(.*?)\)\]\s*(?:#\[derive\([^)]*\)\]\s*)?(?:pub(?:\(crate\))? )?struct (\w+)', text)
+    head = re.search(r'#\[bitfield\(\s*u(\d+)\s*(.*?)\)\]\s*(?:#\[derive\([^)]*\)\]\s*)?(?:///[^\n]*\n)?(?:pub(?:\(crate\))? )?struct (\w+)', text)
     if not head:
         raise ValueError("no bitfield header")
     n = int(head.group(1))
@@ -43,13 +43,19 @@ def parse_struct(text):
     for m in re.finditer(r'#\[(bits?)\((.*)\)\]\s*((?:r#)?\w+)\s*:\s*(.+?),\s*$', text, re.M):
         form, body, name, ty = m.group(1), m.group(2), m.group(3), m.group(4).strip()
         args = split_top(body)
-        first = args[0]
+        # the range argument is the one that is a number, a range or a list (the arguments may come in any order)
+        ri = [k for k, a in enumerate(args) if a.startswith('[') or re.fullmatch(r'\d+(\s*\.\.=\s*\d+)?', a)]
+        if len(ri) != 1:
+            raise ValueError(f"expected exactly one range argument in {body!r}")
+        first = args[ri[0]]
         if first.startswith('['):
             ranges = [parse_range(x) for x in split_top(first[1:-1])]
         else:
             ranges = [parse_range(first)]
         access, stride = '', None
-        for a in args[1:]:
+        for k, a in enumerate(args):
+            if k == ri[0]:
+                continue
             if a in ('r', 'w', 'rw'):
                 access = a
             else:
